@@ -10,6 +10,10 @@ R/V: every emitted scenario (1..3 files, 1..2 records each, equal / increasing t
    virtual clock with load(limit = None / 1) called at every tick until it returns nothing; TLC (HistoryTrace) accepts a
    run iff every call returned exactly what the rule says, completion is reported only after everything was delivered,
    and the final register map equals the last logged values.
+I: every run is also validated against spec/Loader.tla, the loader's algorithm as coded (file choice by first timestamp, the
+   `strict' re-open guard, AWAITING / SWITCHING / EXHAUSTED states, the look-ahead queue).  A run the property rejects counts as
+   the known finding F4 only if it is exactly that algorithm's behaviour on a history containing a single-timestamp file;
+   any other rejected run is a new violation.
 """
 import json
 import os
@@ -58,6 +62,43 @@ def validate(ctx, lines, name):
     return bad
 
 
+def impl_scenario(ln):
+    """the scenario as the coded algorithm sees it: every record flagged, plus the unparsable record the harness inserted
+    after the first record of every file in file form 4 (same timestamp, no payload)"""
+    sc = ln["sc"]
+    files = []
+    for f in sc["files"]:
+        recs = [dict(r, bad=False) for r in f]
+        if ln["variant"] == 4:
+            recs.insert(1, {"ts": f[0]["ts"], "reg": 0, "val": 0, "bad": True})
+        files.append(recs)
+    return dict(sc, files=files)
+
+
+def validate_impl(ctx, lines, name):
+    """conformance to Loader.tla (the algorithm as coded): returns the set of indices of runs that differ from it"""
+    differs = set()
+    CH = 4000
+    for k in range(0, len(lines), CH):
+        ch = lines[k:k + CH]
+        fd, path = tempfile.mkstemp(prefix="hist_impl_", suffix=".ndjson")
+        with os.fdopen(fd, "w") as f:
+            for ln in ch:
+                f.write(json.dumps({"sc": impl_scenario(ln), "ev": ln["ev"]}, separators=(",", ":")) + "\n")
+        try:
+            res = tlc.run("LoaderTrace", "LoaderTrace.cfg", env={"TRACE_FILE": path}, timeout=2400)
+        finally:
+            os.unlink(path)
+        ctx.ev.tlc("coded-algorithm:" + name, res)
+        stuck = {j["tid"]: j for j in res.json if "tid" in j}
+        expect = sum(len(ln["ev"]) + 1 for ln in ch) - sum(len(ch[t - 1]["ev"]) + 1 - j["at"] for t, j in stuck.items())
+        if res.distinct != expect:
+            ctx.machinery.append("coded-algorithm %s: TLC visited %d states, expected %d" % (name, res.distinct, expect))
+        for t in stuck:
+            differs.add(k + t - 1)
+    return differs
+
+
 def main(ctx):
     from .. import histlib
     ev = ctx.ev
@@ -83,14 +124,14 @@ def main(ctx):
         scs = rng.sample(scs, 60000)
     ev.rule = ("cases: (scenario, load limit, file form): every layout of 1..4 (6) records with non-decreasing timestamps 0..3 "
                "split into 1..3 files of 1..2 (3) records x start {-1,0,1,2,4} x factor {1,2} x look-ahead {0,1}, each replayed "
-               "with limit None and 1 and in one of five file forms (plain, gz, bz2, plain+gz duplicates, comment+corrupt "
-               "lines).  Non-trivial: more than one file, or equal timestamps, or a start inside the history.")
+               "with limit None and 1 and in one of six file forms (plain, gz, bz2, plain+gz duplicates, comment+corrupt "
+               "lines, comments first and last).  Non-trivial: more than one file, or equal timestamps, or a start inside the history.")
     ev.assumptions = ["integer-second timestamps (the millisecond epsilon of timestamp comparison is C17's subject)",
                       "load() is called at every wall-clock tick until it returns no events, as the loader documents"]
     jobs = []
     for n, j in enumerate(scs):
-        jobs.append((j, 0, n % 5))
-        jobs.append((j, 1, (n + 2) % 5))
+        jobs.append((j, 0, n % 6))
+        jobs.append((j, 1, (n + 2) % 6))
     lines = core.pmap(histlib.run_scenario, jobs, chunksize=32)
     for ln in lines:
         sc = ln["sc"]
@@ -98,11 +139,24 @@ def main(ctx):
         ev.case(key=(json.dumps(sc), ln["limit"], ln["variant"]), nontrivial=nt)
     ev.sample({"scenario": lines[len(lines) // 2]["sc"], "limit": lines[len(lines) // 2]["limit"], "file_form": lines[len(lines) // 2]["variant"],
                "loads": lines[len(lines) // 2]["ev"][:8]})
+    for i, ln in enumerate(lines):
+        ln["idx"] = i
     bad = validate(ctx, lines, "replay")
+    # every run is also compared with the algorithm as coded (Loader.tla): a run the property rejects is the known finding F4
+    # only if it is exactly that algorithm's behaviour on a history with a single-timestamp file
+    differs = validate_impl(ctx, lines, "replay")
+    rejected = set(ln["idx"] for ln, at, why in bad)
+    drift = sorted(differs - rejected)
+    if drift:
+        print("  SPEC-DRIFT: %d runs satisfy the property but differ from the coded-algorithm model (Loader.tla), e.g. files %s start %s" % (
+            len(drift), json.dumps([[r["ts"] for r in f] for f in lines[drift[0]]["sc"]["files"]]), lines[drift[0]]["sc"]["start"]))
+    ev.extra["runs_conforming_to_coded_algorithm"] = len(lines) - len(differs)
+    ev.extra["spec_drift_runs"] = len(drift)
     classes = {}
     for ln, at, why in bad:
         single, eqb = features(ln["sc"])
-        key = (why, "single-timestamp-file" if single else "-", "equal-timestamp-at-file-boundary" if eqb else "-")
+        key = (why, "single-timestamp-file" if single else "-", "equal-timestamp-at-file-boundary" if eqb else "-",
+               "as-coded" if ln["idx"] not in differs else "NOT-the-coded-algorithm")
         classes.setdefault(key, []).append((ln, at))
     for key in sorted(classes):
         ln, at = classes[key][0]
@@ -113,7 +167,8 @@ def main(ctx):
         for ln, at in classes[key]:
             single, eqb = features(ln["sc"])
             rec = {"why": key[0], "scenario": ln["sc"], "limit": ln["limit"], "variant": ln["variant"], "loads": ln["ev"][:at + 1],
-                   "values": ln["values"], "single_timestamp_file": single, "equal_timestamp_at_file_boundary": eqb, "exc": ln.get("exc", "")}
+                   "values": ln["values"], "single_timestamp_file": single, "equal_timestamp_at_file_boundary": eqb, "exc": ln.get("exc", ""),
+                   "conforms_to_coded_algorithm": ln["idx"] not in differs}
             ctx.violation("history_%s" % key[0], rec, what="history %s: files(ts) %s start %s factor %s lookahead %s limit %s: loads %s" % (
                 key[0], json.dumps([[r["ts"] for r in f] for f in ln["sc"]["files"]]), ln["sc"]["start"], ln["sc"]["factor"],
                 ln["sc"]["lookahead"], ln["limit"], json.dumps(ln["ev"][:at + 1])[:400]))
